@@ -216,6 +216,7 @@ def run(ctx: Ctx):
         u(d.value).endswith(".flatten(-2)") for d in rdm.defs_of(ret.value.args[0]))
     col.ob("G13", "S4", f"{rel}::MultiHeadedAttention.forward::heads-concatenated-then-WC", okmerge,
            f"the result `{u(ret.value)}` is not WC applied to the heads flattened over the last two axes", rel, ret.lineno)
+    _masked_values_excluded_by_selection(ctx)
     plumbing(ctx, "S3")
     return dict(
         explanation=(
@@ -233,10 +234,38 @@ def run(ctx: Ctx):
     )
 
 
+def _masked_values_excluded_by_selection(ctx: Ctx):
+    """S5: 'the output does not change when keys and values at masked positions are replaced by anything'. Keys are covered
+    (their scores are overwritten with -inf before the softmax). Values are only multiplied by the attention weight, which
+    is exactly 0 at a masked position - and 0 * inf = 0 * nan = nan. When a mask is given, the value tensor must be cleared at
+    the masked positions (masked_fill / where) before the weighted sum."""
+    from sa.defuse import ReachingDefs
+    col, pkg = ctx.col, ctx.pkg
+    f = pkg.func("_attn::GlobalSoftAttention.forward")
+    rel = f.module.relname
+    rd = ReachingDefs(f.node)
+    vname, mname = f.params[3].name, f.params[4].name
+    prods = [n for n in own_nodes(f.node) if isinstance(n, ast.BinOp) and isinstance(n.op, ast.Mult)
+             and any(isinstance(x, ast.Name) and x.id == vname for x in ast.walk(n))]
+    if len(prods) != 1:
+        raise AnalysisError(f"C20: expected one weight * value product in GlobalSoftAttention.forward, found {len(prods)}")
+    vn = [x for x in ast.walk(prods[0]) if isinstance(x, ast.Name) and x.id == vname][0]
+    der = rd.derives(vn)
+    cleared = any(isinstance(c.func, ast.Attribute) and c.func.attr in ("masked_fill", "masked_fill_", "where") and
+                  any(isinstance(x, ast.Name) and x.id == mname for x in ast.walk(c)) or
+                  (call_name(c) == "torch.where" and any(isinstance(x, ast.Name) and x.id == mname for x in ast.walk(c)))
+                  for c in der.calls())
+    col.ob("G20", "S5", f"{rel}::GlobalSoftAttention.forward::masked-values-cleared-before-the-weighted-sum", cleared,
+           f"`{u(prods[0])}` excludes masked positions only through their zero weight; a non-finite value there (uninitialised or "
+           f"NaN padding) gives 0 * inf = nan and the whole output row is NaN, although the property lets masked values be "
+           f"anything", rel, prods[0].lineno)
+
+
 def _mutants():
     from selftest.mutate import Mutant as M
     A = "_attn.py"
     return [
+        M("masked-values-only-weighted-out", "_attn.py", "value = torch.where(mask.unsqueeze(-1), value, torch.zeros_like(value))\n", "", "masked-values-cleared-before-the-weighted-sum"),
         M("rank-compared-with-minus-one", "_attn.py", "self.dim == -1", "key_dim == -1", "no-vacuous-rank-test"),
         M("mask-not-negated", A, "e = e.masked_fill(~mask, -float('inf'))", "e = e.masked_fill(mask, -float('inf'))", "masked-scores-are--inf"),
         M("mask-fill-zero", A, "e = e.masked_fill(~mask, -float('inf'))", "e = e.masked_fill(~mask, 0.0)", "masked-scores-are--inf"),
